@@ -38,10 +38,10 @@ var Seeds = []string{
 	"on animate\n    print 1\nend\n",
 	"x:any\nx = 1\nprint x.(num)+1\n",
 	"x:[]any\nx = [1 \"a\"]\nprint x (typeof x[0])\n",
-	"print -1 !true (1 + 2) * 3\n",
+	"print -1 !true (1+2)*3 ((1 + 2) * 3)\n",
 	"print 1+2*3 10%3 7/2 1-1\n",
 	"print \"a\"+\"b\" \"a\"<\"b\" 1<=2 2>=1 1!=2 1==1\n",
-	"print true and false or true\n",
+	"print (true and false or true) (false or !true)\n",
 	"print [1]+[2] [0]*3 []+[1]\n",
 	"a := [\n    1\n    2 // two\n]\nprint a\n",
 	"m := {\n    a:1\n    b:2\n}\nprint m\n",
@@ -63,6 +63,7 @@ var Seeds = []string{
 	"func f:num\n    while true\n        return 1\n    end\n    return 2\nend\nprint (f)\n",
 	"x := [1 2 3][1]\ny := \"abc\"[1:]\nz := {a:1}.a\nprint x y z\n",
 	"del {} \"a\"\nprint (has {a:1} \"a\") (join [1 2] \",\") (split \"a b\" \" \")\n",
+	"on down x:num y:num\n    print x y\nend\non input id:string val:string\n    print id val\nend\nfunc pr a:num b:string c:bool\n    print a b c\nend\npr 1 \"s\" true\n",
 	"func sign:string n:num\n    if n > 0\n        return \"p\"\n    else if n < 0\n        return \"n\"\n    else\n        return \"z\"\n    end\nend\nprint (sign 1) (sign -1) (sign 0)\n",
 	"func pick:num a:bool b:bool\n    if a\n        if b\n            return 1\n        else\n            return 2\n        end\n    else\n        return 3\n    end\nend\nprint (pick true false)\n",
 }
